@@ -131,7 +131,7 @@ class FuncRef:
         self.fn, self.self_val, self.closure = fn, self_val, closure
 
 
-BUILTIN_NAMES = {'float', 'complex', 'bytes', 'callable', 'getattr', 'hasattr', 'abs', 'set', 'dict', 'list', 'tuple', 'frozenset', 'sorted', 'len', 'isinstance', 'any', 'all', 'bool', 'str', 'int',
+BUILTIN_NAMES = {'id', 'float', 'complex', 'bytes', 'callable', 'getattr', 'hasattr', 'abs', 'set', 'dict', 'list', 'tuple', 'frozenset', 'sorted', 'len', 'isinstance', 'any', 'all', 'bool', 'str', 'int',
                  'enumerate', 'zip', 'range', 'print', 'repr', 'min', 'max', 'sum', 'type', 'reversed', 'iter', 'next', 'map',
                  'filter', 'object', 'TypeError', 'ValueError', 'KeyError', 'IndexError', 'NotImplementedError', 'Exception',
                  'AttributeError', 'RuntimeError', 'AssertionError', 'StopIteration'}
@@ -1223,6 +1223,15 @@ class Interp:
             if isinstance(args[0], (list, tuple, set, frozenset, dict, str)) or args[0] is None or isinstance(args[0], (int, Atom, EnumV)):
                 raise Raised('TypeError', 'next() of something that is no iterator')
             raise Undecided('next()')
+        if name == 'id' and len(args) == 1 and not kwargs:
+            if isinstance(args[0], (list, dict, set, Obj)) and not isinstance(args[0], GenList):
+                # the identity of a mutable object: an opaque name that is the same exactly for the same object (the objects
+                # met are kept alive so that no two of them can share an address)
+                keep = self.__dict__.setdefault('_id_keep', [])
+                if not any(x is args[0] for x in keep):
+                    keep.append(args[0])
+                return Atom(f'id#{next(i for i, x in enumerate(keep) if x is args[0])}')
+            raise Undecided('id() of an immutable value')
         if name == 'getattr' and len(args) in (2, 3) and isinstance(args[1], str) and not kwargs:
             try:
                 return self.getattr(args[0], args[1], fn, depth)
